@@ -196,10 +196,12 @@ Universe0 ==
     [ty : {2, 5}, ns : NsU, id : IdU, data : EventData]
     \cup [ty : {3, 6}, ns : NsU, id : IdU \ {NONE}, data : AckData]
     \cup [ty : {0, 1, 4}, ns : NsU, id : {NONE}, data : OtherData]
-(* a BINARY_EVENT / BINARY_ACK is an event / ack that holds byte strings   *)
-Universe == {p \in Universe0 : IsBinaryType(p.ty) => HasBytes(p.data)}
+(* a BINARY_EVENT / BINARY_ACK normally is an event / ack that holds byte   *)
+(* strings; one WITHOUT any (explicit type, or binary=True) is a packet    *)
+(* too: it announces zero attachments ("50-...")                            *)
+Universe == Universe0
 
-WellFormed(p) == WireType(p) # 99 /\ (IsBinaryType(p.ty) => p.data # Absent /\ HasBytes(p.data))
+WellFormed(p) == WireType(p) # 99 /\ (IsBinaryType(p.ty) => p.data # Absent)
 
 (* C01 on the specification itself                                         *)
 RoundTripHeader ==
